@@ -243,3 +243,547 @@ Proof.
 Qed.
 
 End Natural.
+
+(* ------------------------------------------------------------------ *)
+(* declarative side conditions                                          *)
+(* ------------------------------------------------------------------ *)
+(* the clusters partition the rows 0..n-1 into non-empty lists *)
+Definition partition (n : nat) (cl : list (list nat)) : Prop :=
+  List.Forall (group_ok n) cl /\ NoDup (concat cl) /\ covers n cl.
+
+(* the mode of the background column is compatible with "one background per
+   cluster" (residual() reads params[indices[0], 0] only):
+   const / global / cluster always are; 'var' only with single-feature
+   clusters (FitFunctions.__init__ turns it into 'cluster'); a custom group
+   mode when every cluster lies inside one of its groups *)
+Definition bg_mode_ok (groups : groups_t) (cl : list (list nat)) (m0 : nat) : Prop :=
+  match m0 with
+  | 0%nat => True
+  | 1%nat => List.Forall (fun c => (length c <= 1)%nat) cl
+  | _ => match select groups m0 with
+         | TakeOne => True
+         | Groups gt => List.Forall (fun c => exists g, In g gt /\ incl c g) cl
+         | NoGroups => False
+         end
+  end.
+
+Lemma in_concat_map : forall {T : Type} (f : T -> list nat) l c i, In c l -> In i (f c) -> In i (concat (map f l)).
+Proof. intros. apply in_concat. exists (f c). split; [apply in_map; assumption|assumption]. Qed.
+
+(* ------------------------------------------------------------------ *)
+(* 3. the array `result` after the loop over the clusters               *)
+(* ------------------------------------------------------------------ *)
+Section Written.
+Context {X : Type}.
+Variable P : list (list R).
+
+Definition written (c : cluster X) (k i : nat) : R :=
+  match k with
+  | O => grad_bg (cl_pix c) (cl_idx c) (cl_len c) (cl_img c) (bg_of c P) (vals_of c P)
+  | S k' => grad_entry (cl_pix c) (cl_idx c) (cl_len c) (cl_img c) (bg_of c P) (vals_of c P)
+                       (rows_of c P) i k'
+  end.
+
+Lemma fold_write_other : forall (l : list (cluster X)) A k i,
+  (forall c, In c l -> ~ In i (cl_idx c)) -> fold_left (jac_write P) l A k i = A k i.
+Proof.
+  induction l as [|a l IH]; intros A k i H; [reflexivity|]. simpl.
+  rewrite IH by (intros c Hc; apply H; right; exact Hc).
+  unfold jac_write. destruct (in_dec Nat.eq_dec i (cl_idx a)) as [Hi|Hi]; [|reflexivity].
+  exfalso. exact (H a (or_introl eq_refl) Hi).
+Qed.
+
+Lemma fold_write_in : forall (l : list (cluster X)) A c k i,
+  NoDup (concat (map cl_idx l)) -> In c l -> In i (cl_idx c) ->
+  fold_left (jac_write P) l A k i = written c k i.
+Proof.
+  induction l as [|a l IH]; intros A c k i ND Hc Hi; [contradiction|]. simpl in ND |- *.
+  destruct (NoDup_app_split _ _ ND) as [ND' Hdisj].
+  destruct Hc as [->|Hc].
+  - rewrite fold_write_other.
+    + unfold jac_write, written. destruct (in_dec Nat.eq_dec i (cl_idx c)); [destruct k; reflexivity|contradiction].
+    + intros c' Hc' Hi'. apply (Hdisj i Hi). eapply in_concat_map; eauto.
+  - apply IH; auto.
+Qed.
+End Written.
+
+(* ------------------------------------------------------------------ *)
+(* 4. the background column of the direction array is constant on       *)
+(*    every cluster                                                      *)
+(* ------------------------------------------------------------------ *)
+Lemma nth_repeat_lt : forall (a : R) n i, (i < n)%nat -> nth i (repeat a n) 0 = a.
+Proof. intros. apply nth_error_nth. apply nth_error_repeat. assumption. Qed.
+
+Lemma nth_repeat_0 : forall n i, nth i (repeat 0 n) 0 = 0.
+Proof. induction n; intros [|i]; simpl; auto. Qed.
+
+Lemma Forall2_in_l : forall {S T : Type} (R2 : S -> T -> Prop) l1 l2 x,
+  Forall2 R2 l1 l2 -> In x l1 -> exists y, R2 x y.
+Proof.
+  intros S T R2 l1 l2 x H. induction H as [|a b l1 l2 Hab H IH]; intros Hin; [contradiction|].
+  destruct Hin as [->|Hin]; eauto.
+Qed.
+
+Lemma dir_bg_const : forall groups n cl m0 (w0 rest d0 rest' : list R),
+  bg_mode_ok groups cl m0 -> mode_wf groups n m0 -> List.Forall (group_ok n) cl ->
+  length w0 = packed_len_col groups n m0 ->
+  unpack_col groups n m0 (w0 ++ rest) (repeat 0 n) = Some (d0, rest') ->
+  forall c i, In c cl -> In i c -> nth i d0 0 = nth (hd 0%nat c) d0 0.
+Proof.
+  intros groups n cl m0 w0 rest d0 rest' HB HW HG HV HU c i Hc Hi.
+  rewrite Forall_forall in HG. destruct (HG c Hc) as [Hne Hrange]. rewrite Forall_forall in Hrange.
+  assert (Hhd : In (hd 0%nat c) c) by (destruct c; [congruence|left; reflexivity]).
+  destruct m0 as [|[|m]].
+  - simpl in HU. inversion HU. rewrite !nth_repeat_0. reflexivity.
+  - simpl in HB. rewrite Forall_forall in HB. specialize (HB c Hc).
+    destruct c as [|a [|b c]]; [contradiction| |simpl in HB; lia].
+    destruct Hi as [->|[]]. reflexivity.
+  - unfold mode_wf in HW. unfold bg_mode_ok in HB. unfold packed_len_col in HV. unfold unpack_col in HU.
+    destruct (select groups (S (S m))) as [|gt|] eqn:Hs; [| |contradiction].
+    + destruct w0 as [|a [|? ?]]; try discriminate. simpl in HU. inversion HU.
+      rewrite !nth_repeat_lt by (apply Hrange; assumption). reflexivity.
+    + destruct HW as (HGt & ND). rewrite Forall_forall in HB. destruct (HB c Hc) as (g & Hg & Hincl).
+      rewrite (firstn_app_exact w0 rest _ HV) in HU.
+      destruct (assign_groups_disjoint n gt w0 (repeat 0 n) HGt ND (repeat_length 0 n) HV) as (c' & E & L & F & _).
+      rewrite E in HU. inversion HU; subst d0.
+      destruct (Forall2_in_l _ _ _ g F Hg) as [v Hv].
+      rewrite (nth_error_nth c' i 0 (Hv i (Hincl i Hi))).
+      rewrite (nth_error_nth c' _ 0 (Hv _ (Hincl _ Hhd))). reflexivity.
+Qed.
+
+(* const, global and cluster are always admissible for the background *)
+Lemma bg_mode_ok_builtin : forall groups n m0,
+  m0 = 0%nat \/ m0 = 2%nat \/ m0 = 3%nat -> mode_wf groups n m0 ->
+  bg_mode_ok groups (cl_groups_of groups n) m0.
+Proof.
+  intros groups n m0 H HW. destruct H as [H|[H|H]]; subst m0; [exact I|exact I|].
+  unfold bg_mode_ok, mode_wf in *. destruct groups as [gs|]; [|exact I].
+  simpl in *. destruct gs as [|g0 gs]; [contradiction|]. simpl.
+  apply Forall_forall. intros c Hc. exists c. split; [exact Hc|apply incl_refl].
+Qed.
+
+(* groups=None: the single cluster np.arange(n) is a partition *)
+Lemma partition_none : forall n, (0 < n)%nat -> partition n (cl_groups_of None n).
+Proof.
+  intros n Hn. unfold partition, cl_groups_of. simpl. rewrite app_nil_r. repeat split.
+  - constructor; [|constructor]. split.
+    + destruct n; [lia|discriminate].
+    + apply Forall_forall. intros j Hj. apply in_seq in Hj. lia.
+  - apply seq_NoDup.
+  - intros j Hj. simpl. rewrite app_nil_r. apply in_seq. lia.
+Qed.
+
+(* ------------------------------------------------------------------ *)
+(* 5. sum exchange                                                      *)
+(* ------------------------------------------------------------------ *)
+(* one cluster: the entries written into `result`, contracted with a
+   direction array Df (column, row) whose background column is constant on
+   the cluster, give the derivative of cluster_residual_derive *)
+Lemma cluster_algebra : forall {X : Type} (pixels : list X) (ind : list nat) (len : R)
+    (df : X -> R) (row : nat -> X -> list R) (Df : nat -> nat -> R) (nv' i0 : nat),
+  ind <> [] -> (forall i, In i ind -> Df 0%nat i = Df 0%nat i0) ->
+  sumR (map (fun i =>
+      sumR (map (fun x => -2 * df x) pixels) / (INR (length ind) * len) * Df 0%nat i
+      + sumR (map (fun k => sumR (map (fun x => -2 * df x * nth k (row i x) 0) pixels) / len * Df (S k) i)
+                  (seq 0 nv'))) ind)
+  = sumR (map (fun x => -2 * df x *
+        (Df 0%nat i0 + sumR (map (fun i => sumR (map (fun k => nth k (row i x) 0 * Df (S k) i) (seq 0 nv'))) ind)))
+        pixels) / len.
+Proof.
+  intros X pixels ind len df row Df nv' i0 Hne Hc.
+  assert (Hn : INR (length ind) <> 0).
+  { apply not_0_INR. destruct ind; [congruence|discriminate]. }
+  unfold Rdiv. rewrite Rinv_mult. set (il := / len). set (K := seq 0 nv').
+  rewrite (sumR_map_plus (fun i => sumR (map (fun x => -2 * df x) pixels) * (/ INR (length ind) * il) * Df 0%nat i)).
+  rewrite (sumR_map_ext_in (fun i => sumR (map (fun x => -2 * df x) pixels) * (/ INR (length ind) * il) * Df 0%nat i)
+             (fun _ => sumR (map (fun x => -2 * df x) pixels) * (/ INR (length ind) * il) * Df 0%nat i0))
+    by (intros i Hi; rewrite (Hc i Hi); reflexivity).
+  rewrite sumR_map_const.
+  (* right-hand side: distribute *)
+  rewrite (sumR_map_ext_in
+             (fun x => -2 * df x * (Df 0%nat i0 + sumR (map (fun i => sumR (map (fun k => nth k (row i x) 0 * Df (S k) i) K)) ind)))
+             (fun x => (-2 * df x) * Df 0%nat i0
+                       + sumR (map (fun i => sumR (map (fun k => -2 * df x * nth k (row i x) 0 * Df (S k) i) K)) ind))).
+  2:{ intros x _. rewrite Rmult_plus_distr_l. f_equal.
+      rewrite <- sumR_map_scal. apply sumR_map_ext_in. intros i _.
+      rewrite <- sumR_map_scal. apply sumR_map_ext_in. intros k _. ring. }
+  rewrite (sumR_map_plus (fun x => -2 * df x * Df 0%nat i0)).
+  rewrite (sumR_map_scal_r (Df 0%nat i0) (fun x => -2 * df x)).
+  (* the double sums *)
+  rewrite (sumR_map_swap (fun x i => sumR (map (fun k => -2 * df x * nth k (row i x) 0 * Df (S k) i) K)) pixels ind).
+  rewrite (sumR_map_ext_in
+             (fun i => sumR (map (fun k => sumR (map (fun x => -2 * df x * nth k (row i x) 0) pixels) * il * Df (S k) i) K))
+             (fun i => il * sumR (map (fun x => sumR (map (fun k => -2 * df x * nth k (row i x) 0 * Df (S k) i) K)) pixels))).
+  2:{ intros i _.
+      rewrite (sumR_map_swap (fun x k => -2 * df x * nth k (row i x) 0 * Df (S k) i) pixels K).
+      rewrite <- sumR_map_scal. apply sumR_map_ext_in. intros k _.
+      rewrite (sumR_map_scal_r (Df (S k) i) (fun x => -2 * df x * nth k (row i x) 0)). ring. }
+  rewrite (sumR_map_scal il). clearbody il.
+  repeat match goal with |- context [sumR ?l] => generalize (sumR l); intro end.
+  field. exact Hn.
+Qed.
+
+Lemma nth_tl_row : forall (D : list (list R)) i k, nth k (tl (row_of D i)) 0 = nth i (nth (S k) D []) 0.
+Proof.
+  intros [|d D] i k.
+  - unfold row_of. cbn [map tl]. rewrite nth_nil_R, nth_nil_list, nth_nil_R. reflexivity.
+  - unfold row_of. cbn [map tl nth].
+    transitivity (nth k (map (fun c : list R => nth i c 0) D) ((fun c : list R => nth i c 0) [])).
+    + cbv beta. rewrite nth_nil_R. reflexivity.
+    + exact (map_nth (fun c : list R => nth i c 0) D [] k).
+Qed.
+
+Lemma shape_nth : forall n (D : list (list R)) k, shape n D -> (k < length D)%nat -> length (nth k D []) = n.
+Proof.
+  intros n D k H Hk. unfold shape in H. rewrite Forall_forall in H. apply H. apply nth_In. exact Hk.
+Qed.
+
+Section Exchange.
+Context {X : Type}.
+Variables (cls : list (cluster X)) (n nv' : nat) (P D : list (list R)).
+
+(* the derivative of one cluster's residual along the direction array D *)
+Definition cluster_term (c : cluster X) : R :=
+  sumR (map (fun x => -2 * diff_at (cl_idx c) (cl_img c) (bg_of c P) (vals_of c P) x
+                      * (nth (hd 0%nat (cl_idx c)) (nth 0 D []) 0
+                         + sumR (map (fun i => dot (rows_of c P i x) (tl (row_of D i))) (cl_idx c))))
+            (cl_pix c)) / cl_len c.
+
+Lemma assemble :
+  partition n (map cl_idx cls) -> length D = S nv' -> shape n D ->
+  (forall c i, In c cls -> In i (cl_idx c) ->
+     nth i (nth 0 D []) 0 = nth (hd 0%nat (cl_idx c)) (nth 0 D []) 0) ->
+  mdot (to_cols n (S nv') (jac_arr cls P)) D = sumR (map cluster_term cls).
+Proof.
+  intros (HG & ND & Hcov) HLD HS Hbg.
+  set (A := jac_arr cls P). set (Df := fun k i => nth i (nth k D []) 0).
+  rewrite mdot_nth, HLD.
+  (* entries *)
+  rewrite (sumR_map_ext_in _ (fun k => sumR (map (fun i => A k i * Df k i) (seq 0 n)))).
+  2:{ intros k Hk. apply in_seq in Hk. unfold to_cols.
+      rewrite nth_map_seq by lia. rewrite dot_nth, (shape_nth n D k HS) by lia.
+      apply sumR_map_ext_in. intros i Hi. apply in_seq in Hi.
+      rewrite nth_map_seq by lia. reflexivity. }
+  (* rows outside, then regroup the rows by cluster *)
+  rewrite (sumR_map_swap (fun k i => A k i * Df k i)).
+  assert (Hperm : Permutation (seq 0 n) (concat (map cl_idx cls))).
+  { apply NoDup_Permutation; [apply seq_NoDup|exact ND|]. intro i. split.
+    - intro Hi. apply in_seq in Hi. apply Hcov. lia.
+    - intro Hi. apply in_concat in Hi. destruct Hi as (g & Hg & Hi).
+      rewrite Forall_forall in HG. destruct (HG g Hg) as [_ Hr]. rewrite Forall_forall in Hr.
+      apply in_seq. specialize (Hr i Hi). lia. }
+  rewrite (sumR_perm _ _ (Permutation_map _ Hperm)).
+  rewrite sumR_map_concat, map_map.
+  apply sumR_map_ext_in. intros c Hc.
+  assert (Hne : cl_idx c <> []).
+  { rewrite Forall_forall in HG. destruct (HG (cl_idx c) (in_map cl_idx cls c Hc)) as [Hne _]. exact Hne. }
+  (* what was written for this cluster *)
+  rewrite (sumR_map_ext_in _ (fun i =>
+      sumR (map (fun x => -2 * diff_at (cl_idx c) (cl_img c) (bg_of c P) (vals_of c P) x) (cl_pix c))
+        / (INR (length (cl_idx c)) * cl_len c) * Df 0%nat i
+      + sumR (map (fun k => sumR (map (fun x => -2 * diff_at (cl_idx c) (cl_img c) (bg_of c P) (vals_of c P) x
+                                                * nth k (rows_of c P i x) 0) (cl_pix c)) / cl_len c * Df (S k) i)
+                  (seq 0 nv')))).
+  2:{ intros i Hi. cbn [seq map sumR fold_right].
+      fold (sumR (map (fun k => A k i * Df k i) (seq 1 nv'))).
+      unfold A, jac_arr. rewrite (fold_write_in P cls _ c 0%nat i ND Hc Hi). f_equal.
+      rewrite <- seq_shift, map_map. apply sumR_map_ext_in. intros k _.
+      rewrite (fold_write_in P cls _ c (S k) i ND Hc Hi). reflexivity. }
+  rewrite (cluster_algebra (cl_pix c) (cl_idx c) (cl_len c)
+             (diff_at (cl_idx c) (cl_img c) (bg_of c P) (vals_of c P))
+             (rows_of c P) Df nv' (hd 0%nat (cl_idx c)) Hne (fun i Hi => Hbg c i Hc Hi)).
+  unfold cluster_term. f_equal. apply sumR_map_ext_in. intros x _. f_equal. f_equal.
+  apply sumR_map_ext_in. intros i _.
+  rewrite dot_nth.
+  assert (HL : length (tl (row_of D i)) = nv').
+  { unfold row_of. destruct D; [discriminate|]. simpl in *. rewrite map_length. lia. }
+  rewrite HL. apply sumR_map_ext_in. intros k _. rewrite nth_tl_row. reflexivity.
+Qed.
+End Exchange.
+
+(* ------------------------------------------------------------------ *)
+(* 6. composition                                                       *)
+(* ------------------------------------------------------------------ *)
+Lemma is_derive_sumR_in : forall {X : Type} (l : list X) (f : X -> R -> R) (df : X -> R) t0,
+  (forall x, In x l -> is_derive (f x) t0 (df x)) ->
+  is_derive (fun t => sumR (map (fun x => f x t) l)) t0 (sumR (map df l)).
+Proof.
+  intros X l f df t0 H. induction l as [|a l IH]; simpl.
+  - apply (is_derive_const 0 t0).
+  - apply (is_derive_plus (f a) (fun t => sumR (map (fun x => f x t) l)) t0 (df a) _ (H a (or_introl eq_refl))).
+    apply IH. intros x Hx. apply H. right. exact Hx.
+Qed.
+
+(* cluster_residual_derive, needing differentiability only at the features
+   and pixels of the cluster, and with the values at t = 0 named *)
+Lemma cluster_residual_derive_in :
+  forall {X F : Type} (pixels : list X) (feats : list F) (len : R) (img : X -> R)
+         (bgc : R -> R) (dbg : R) (valc : F -> X -> R -> R) (dval : F -> X -> R)
+         (bg0 : R) (val0 : F -> X -> R),
+  is_derive bgc 0 dbg -> bgc 0 = bg0 ->
+  (forall f x, In f feats -> In x pixels -> is_derive (valc f x) 0 (dval f x) /\ valc f x 0 = val0 f x) ->
+  is_derive (fun t => cluster_residual pixels feats len img (bgc t) (fun f x => valc f x t)) 0
+    (sumR (map (fun x => -2 * diff_at feats img bg0 val0 x
+                           * (dbg + sumR (map (fun f => dval f x) feats))) pixels) / len).
+Proof.
+  intros X F pixels feats len img bgc dbg valc dval bg0 val0 Hb Hb0 Hv.
+  unfold cluster_residual, Rdiv.
+  apply (is_derive_scal_l (fun t => sumR (map (fun x => diff_at feats img (bgc t) (fun f x0 => valc f x0 t) x ^ 2) pixels)) 0 _ (/ len)).
+  apply (is_derive_sumR_in pixels
+          (fun x t => diff_at feats img (bgc t) (fun f x0 => valc f x0 t) x ^ 2)
+          (fun x => -2 * diff_at feats img bg0 val0 x * (dbg + sumR (map (fun f => dval f x) feats)))).
+  intros x Hx. unfold diff_at.
+  pose proof (is_derive_sumR_in feats (fun f t => valc f x t) (fun f => dval f x) 0
+                (fun f Hf => proj1 (Hv f x Hf Hx))) as Hs.
+  rewrite <- Hb0.
+  rewrite (sumR_map_ext_in (fun f => val0 f x) (fun f => valc f x 0))
+    by (intros f Hf; symmetry; exact (proj2 (Hv f x Hf Hx))).
+  set (S := fun t => sumR (map (fun f => valc f x t) feats)) in *.
+  change (is_derive (fun t => (img x - bgc t - S t) ^ 2) 0
+            (-2 * (img x - bgc 0 - S 0) * (dbg + sumR (map (fun f => dval f x) feats)))).
+  auto_derive.
+  - split; [exists dbg; exact Hb|]. split; [eexists; exact Hs|]. exact I.
+  - match goal with |- context [Derive (fun x0 => bgc x0) 0] =>
+      replace (Derive (fun x0 => bgc x0) 0) with dbg by (symmetry; apply is_derive_unique; exact Hb) end.
+    match goal with |- context [Derive (fun x0 => S x0) 0] =>
+      replace (Derive (fun x0 => S x0) 0) with (sumR (map (fun f => dval f x) feats))
+        by (symmetry; apply is_derive_unique; exact Hs) end.
+    ring.
+Qed.
+
+Lemma cluster_residual_ext : forall {X F : Type} (pixels : list X) (feats : list F) len img bg bg' (val val' : F -> X -> R),
+  bg = bg' -> (forall f x, val f x = val' f x) ->
+  cluster_residual pixels feats len img bg val = cluster_residual pixels feats len img bg' val'.
+Proof.
+  intros X F pixels feats len img bg bg' val val' -> H. unfold cluster_residual, diff_at. f_equal.
+  apply sumR_map_ext_in. intros x _. f_equal. f_equal. apply sumR_map_ext_in. intros f _. apply H.
+Qed.
+
+(* --- straight lines in vector / array space --- *)
+Lemma nth_line : forall a b t i, length a = length b -> nth i (line a b t) 0 = nth i a 0 + t * nth i b 0.
+Proof.
+  unfold line. induction a as [|x a IH]; intros [|y b] t i H; simpl in H; try discriminate.
+  - cbn [zipw]. rewrite nth_nil_R. ring.
+  - destruct i; simpl; [reflexivity|]. apply IH. lia.
+Qed.
+
+Lemma line_0 : forall p dp, length p = length dp -> line p dp 0 = p.
+Proof.
+  unfold line. induction p as [|x p IH]; intros [|y dp] H; simpl in *; try discriminate; auto.
+  f_equal; [ring|]. apply IH. lia.
+Qed.
+
+Lemma line_zeros : forall p t, line p (repeat 0 (length p)) t = p.
+Proof. unfold line. induction p; intro t; simpl; auto. f_equal; [ring|auto]. Qed.
+
+Lemma line_length : forall p dp t, length p = length dp -> length (line p dp t) = length p.
+Proof. intros. unfold line. apply zipw_length. assumption. Qed.
+
+Lemma row_of_line : forall n t (P D : list (list R)) i, shape n P -> shape n D -> length P = length D ->
+  row_of (zipw (zipw (fun a b => a + t * b)) P D) i = line (row_of P i) (row_of D i) t.
+Proof.
+  intros n t. induction P as [|p P IH]; intros [|d D] i HP HD HL; simpl in HL; try discriminate; [reflexivity|].
+  inversion HP; inversion HD; subst. unfold row_of, line in *. cbn [zipw map]. f_equal.
+  - apply (nth_line p d t i). congruence.
+  - apply IH; auto.
+Qed.
+
+Lemma zipw_zeros : forall n t (cols0 : list (list R)) (modes : list nat),
+  shape n cols0 -> length modes = length cols0 ->
+  zipw (zipw (fun a b => a + t * b)) cols0 (map (fun _ => repeat 0 n) modes) = cols0.
+Proof.
+  intros n t. induction cols0 as [|c cs IH]; intros [|m ms] HS HL; simpl in HL; try discriminate; [reflexivity|].
+  inversion HS; subst. cbn [map zipw]. f_equal; [apply (line_zeros c t)|]. apply IH; auto.
+Qed.
+
+Lemma upd_length : forall v k s, length (upd v k s) = length v.
+Proof. induction v; intros [|k] s; simpl; auto. Qed.
+
+Lemma upd_line : forall v k s, (k < length v)%nat ->
+  upd v k s = line v (upd (repeat 0 (length v)) k 1) (s - nth k v 0).
+Proof.
+  induction v as [|a v IH]; intros k s Hk; simpl in Hk; [lia|].
+  destruct k as [|k]; unfold line in *; cbn [length repeat upd zipw nth].
+  - f_equal; [ring|]. symmetry. apply (line_zeros v).
+  - f_equal; [ring|]. apply IH. lia.
+Qed.
+
+Lemma dot_basis : forall g k, (k < length g)%nat -> dot g (upd (repeat 0 (length g)) k 1) = nth k g 0.
+Proof.
+  induction g as [|a g IH]; intros k Hk; simpl in Hk; [lia|].
+  destruct k as [|k]; cbn [length repeat upd dot nth].
+  - rewrite dot_zeros. ring.
+  - rewrite IH by lia. ring.
+Qed.
+
+(* --- vect_from_params(..., operation=np.sum) does not raise on a well-shaped array --- *)
+Lemma pack_sum_ok : forall groups n modes (G : list (list R)),
+  length modes = length G -> shape n G -> List.Forall (mode_wf groups n) modes ->
+  exists g, pack np_sum groups modes G = Some g.
+Proof.
+  intros groups n modes. induction modes as [|m ms IH]; intros [|c G] HL HS HW; simpl in HL; try discriminate.
+  - exists []. reflexivity.
+  - inversion HS as [|? ? Hc HS']; subst. inversion HW as [|? ? HWm HW']; subst.
+    destruct (IH G ltac:(lia) HS' HW') as [g2 E2].
+    assert (exists g1, pack_col np_sum groups m c = Some g1) as [g1 E1].
+    { destruct m as [|[|m]]; [eexists; reflexivity|eexists; reflexivity|].
+      unfold mode_wf in HWm. unfold pack_col.
+      destruct (select groups (S (S m))) as [|gt|]; [eexists; reflexivity| |contradiction].
+      destruct HWm as [HG _]. simpl. rewrite (pack_sum_groups c gt HG). eexists; reflexivity. }
+    exists (g1 ++ g2). cbn [pack]. rewrite E1, E2. reflexivity.
+Qed.
+
+Lemma to_cols_shape : forall n nv A, shape n (to_cols n nv A) /\ length (to_cols n nv A) = nv.
+Proof.
+  intros. unfold to_cols, shape. split.
+  - apply Forall_forall. intros c Hc. apply in_map_iff in Hc. destruct Hc as (k & <- & _).
+    rewrite map_length, seq_length. reflexivity.
+  - rewrite map_length, seq_length. reflexivity.
+Qed.
+
+Lemma unpack_bg_const : forall groups n cl m0 ms (w rest rest' : list R) ds D,
+  bg_mode_ok groups cl m0 -> mode_wf groups n m0 -> List.Forall (group_ok n) cl ->
+  length w = packed_len groups n (m0 :: ms) ->
+  unpack groups n (m0 :: ms) (w ++ rest) (repeat 0 n :: ds) = Some (D, rest') ->
+  forall c i, In c cl -> In i c -> nth i (nth 0 D []) 0 = nth (hd 0%nat c) (nth 0 D []) 0.
+Proof.
+  intros groups n cl m0 ms w rest rest' ds D HB HW HG HV HU.
+  cbn [unpack] in HU.
+  destruct (unpack_col groups n m0 (w ++ rest) (repeat 0 n)) as [[d0 r]|] eqn:E; [|discriminate].
+  destruct (unpack groups n ms r ds) as [[D' r']|]; [|discriminate]. inversion HU; subst. cbn [nth].
+  rewrite packed_len_cons in HV. set (k := packed_len_col groups n m0) in *.
+  rewrite <- (firstn_skipn k w), <- app_assoc in E.
+  eapply dir_bg_const; eauto. rewrite firstn_length. fold k. lia.
+Qed.
+
+Section Gradient.
+Context {X : Type}.
+Variables (cls : list (cluster X)) (groups : groups_t) (n m0 : nat) (ms : list nat)
+          (cols0 : list (list R)) (norm : R) (v : list R).
+Let modes := m0 :: ms.
+Hypothesis HLm : length modes = length cols0.
+Hypothesis HS0 : List.Forall (fun c => length c = n) cols0.
+Hypothesis HW : List.Forall (mode_wf groups n) modes.
+Hypothesis HV : length v = packed_len groups n modes.
+Hypothesis Hcl : map cl_idx cls = cl_groups_of groups n.
+Hypothesis Hpart : partition n (cl_groups_of groups n).
+Hypothesis Hbg : bg_mode_ok groups (cl_groups_of groups n) m0.
+(* derivs[j, :, x] is the gradient of the feature's contribution to diff[x]
+   in the feature's own parameter row, at the current parameters *)
+Hypothesis Hpix : forall P rest, unpack groups n modes v cols0 = Some (P, rest) ->
+  forall c i x dp, In c cls -> In i (cl_idx c) -> In x (cl_pix c) -> length dp = length modes ->
+  is_derive (fun t => cl_val c i x (line (row_of P i) dp t)) 0
+            (dot (cl_row c i x (row_of P i)) (tl dp)).
+
+Let res := residual cls groups n modes cols0 norm.
+Let jac := jacobian cls groups n modes cols0 norm.
+
+Theorem gradient_directional :
+  exists g, jac v = Some g /\ length g = length v /\
+    forall w, length w = length v -> is_derive (fun t => res (line v w t)) 0 (dot g w).
+Proof.
+  set (zeros := map (fun _ : nat => repeat 0 n) modes).
+  assert (HLz : length modes = length zeros) by (unfold zeros; rewrite map_length; reflexivity).
+  assert (HSz : shape n zeros).
+  { unfold zeros, shape. apply Forall_forall. intros c Hc. apply in_map_iff in Hc.
+    destruct Hc as (k & <- & _). apply repeat_length. }
+  (* the parameters at v *)
+  destruct (pack_unpack None groups n modes cols0 v [] I HLm HS0 HW HV) as (P & UP & SP & _).
+  rewrite app_nil_r in UP.
+  assert (LP : length P = length modes).
+  { destruct (unpack_zipw (fun a b : R => a) groups n modes cols0 zeros v v [] [] [] HLm HLz HS0 HSz HW HV HV)
+      as (P' & D' & U1 & _ & _ & _ & _ & LP' & _).
+    rewrite app_nil_r in U1. rewrite UP in U1. inversion U1. exact LP'. }
+  (* the packed gradient *)
+  set (Gm := to_cols n (length modes) (jac_arr cls P)).
+  destruct (to_cols_shape n (length modes) (jac_arr cls P)) as [SG LG]. fold Gm in SG, LG.
+  destruct (pack_sum_ok groups n modes Gm (eq_sym LG) SG HW) as [g0 EG].
+  exists (map (fun a => a / norm) g0).
+  assert (Lg0 : length g0 = length v).
+  { destruct (pack_sum_adjoint groups n modes Gm v [] g0 (eq_sym LG) SG HW HV EG) as (_ & _ & L & _). exact L. }
+  split; [|split].
+  - unfold jac, jacobian. rewrite UP. fold Gm. rewrite EG. reflexivity.
+  - rewrite map_length. exact Lg0.
+  - intros w HLw. assert (HVw : length w = packed_len groups n modes) by congruence.
+    (* the direction array *)
+    destruct (pack_sum_adjoint groups n modes Gm w [] g0 (eq_sym LG) SG HW HVw EG) as (D & UD & _ & Hadj).
+    fold zeros in UD.
+    assert (HPD : shape n D /\ length D = length modes /\
+                  forall t, unpack groups n modes (line v w t) cols0
+                            = Some (zipw (zipw (fun a b => a + t * b)) P D, [])).
+    { destruct (unpack_zipw (fun a b : R => a + 0 * b) groups n modes cols0 zeros v w [] [] []
+                  HLm HLz HS0 HSz HW HV HVw) as (P' & D' & U1 & U2 & _ & _ & SD & _ & LD).
+      rewrite app_nil_r in U1. rewrite UP in U1. rewrite UD in U2. inversion U1; inversion U2; subst P' D'.
+      split; [exact SD|]. split; [exact LD|]. intro t.
+      destruct (unpack_zipw (fun a b : R => a + t * b) groups n modes cols0 zeros v w [] [] []
+                  HLm HLz HS0 HSz HW HV HVw) as (P' & D' & U1' & U2' & U3 & _).
+      rewrite app_nil_r in U1'. rewrite UP in U1'. rewrite UD in U2'. inversion U1'; inversion U2'; subst P' D'.
+      rewrite app_nil_r in U3. unfold zeros in U3. rewrite (zipw_zeros n t cols0 modes HS0 HLm) in U3. exact U3. }
+    destruct HPD as (SD & LD & Hline).
+    (* residual along the line, cluster by cluster *)
+    apply (is_derive_ext (fun t => sumR (map (fun c =>
+               cluster_residual (cl_pix c) (cl_idx c) (cl_len c) (cl_img c)
+                 (bg_of c P + t * nth (hd 0%nat (cl_idx c)) (nth 0 D []) 0)
+                 (fun i x => cl_val c i x (line (row_of P i) (row_of D i) t))) cls) * / norm)).
+    { intro t. unfold res, residual. rewrite (Hline t). unfold residual_at, Rdiv. f_equal.
+      apply sumR_map_ext_in. intros c _. apply cluster_residual_ext.
+      - unfold bg_of. destruct P as [|p0 P']; [discriminate|]. destruct D as [|d0 D']; [discriminate|].
+        cbn [zipw nth]. inversion SP; inversion SD; subst. symmetry. apply (nth_line p0 d0 t). congruence.
+      - intros i x. unfold vals_of. rewrite (row_of_line n t P D i SP SD) by congruence. reflexivity. }
+    rewrite dot_map_scale. unfold Rdiv.
+    apply (is_derive_scal_l (fun t => sumR (map (fun c =>
+               cluster_residual (cl_pix c) (cl_idx c) (cl_len c) (cl_img c)
+                 (bg_of c P + t * nth (hd 0%nat (cl_idx c)) (nth 0 D []) 0)
+                 (fun i x => cl_val c i x (line (row_of P i) (row_of D i) t))) cls)) 0 _ (/ norm)).
+    (* <g0, w> = <result, D> = sum of the per-cluster derivatives *)
+    rewrite Hadj. unfold Gm. replace (length modes) with (S (length ms)) by reflexivity.
+    rewrite (assemble cls n (length ms) P D).
+    + apply (is_derive_sumR_in cls
+               (fun c t => cluster_residual (cl_pix c) (cl_idx c) (cl_len c) (cl_img c)
+                 (bg_of c P + t * nth (hd 0%nat (cl_idx c)) (nth 0 D []) 0)
+                 (fun i x => cl_val c i x (line (row_of P i) (row_of D i) t)))
+               (cluster_term P D)).
+      intros c Hc. unfold cluster_term.
+      apply (cluster_residual_derive_in (cl_pix c) (cl_idx c) (cl_len c) (cl_img c)
+               (fun t => bg_of c P + t * nth (hd 0%nat (cl_idx c)) (nth 0 D []) 0)
+               (nth (hd 0%nat (cl_idx c)) (nth 0 D []) 0)
+               (fun i x t => cl_val c i x (line (row_of P i) (row_of D i) t))
+               (fun i x => dot (rows_of c P i x) (tl (row_of D i)))
+               (bg_of c P) (vals_of c P)).
+      * auto_derive; [exact I|ring].
+      * ring.
+      * intros i x Hi Hx. assert (HLr : length (row_of D i) = length modes)
+          by (unfold row_of; rewrite map_length; exact LD).
+        split.
+        -- exact (Hpix P [] UP c i x (row_of D i) Hc Hi Hx HLr).
+        -- unfold vals_of. rewrite line_0; [reflexivity|]. unfold row_of. rewrite !map_length. congruence.
+    + rewrite Hcl. exact Hpart.
+    + exact LD.
+    + exact SD.
+    + intros c i Hc Hi. destruct Hpart as (HG & _ & _).
+      apply (unpack_bg_const groups n (cl_groups_of groups n) m0 ms w [] [] (map (fun _ => repeat 0 n) ms) D Hbg
+               ltac:(inversion HW; assumption) HG HVw UD (cl_idx c) i); [|exact Hi].
+      rewrite <- Hcl. apply in_map. exact Hc.
+Qed.
+
+(* every partial derivative: component k of the packed vector varies, the
+   others are held fixed *)
+Theorem gradient_exact :
+  exists g, jac v = Some g /\ length g = length v /\
+    (forall w, length w = length v -> is_derive (fun t => res (line v w t)) 0 (dot g w)) /\
+    (forall k, (k < length v)%nat -> is_derive (fun s => res (upd v k s)) (nth k v 0) (nth k g 0)).
+Proof.
+  destruct gradient_directional as (g & Hj & Lg & Hd). exists g. repeat split; auto.
+  intros k Hk. set (e := upd (repeat 0 (length v)) k 1). set (vk := nth k v 0).
+  assert (Le : length e = length v) by (unfold e; rewrite upd_length, repeat_length; reflexivity).
+  pose proof (Hd e Le) as H0.
+  assert (Hg : is_derive (fun s : R => s - vk) vk 1) by (auto_derive; [exact I|ring]).
+  replace 0 with (vk - vk) in H0 by ring.
+  pose proof (is_derive_comp (fun t => res (line v e t)) (fun s => s - vk) vk _ _ H0 Hg) as Hc.
+  apply (is_derive_ext (fun s => res (line v e (s - vk)))).
+  - intro s. unfold e, vk. rewrite <- upd_line by exact Hk. reflexivity.
+  - replace (nth k g 0) with (scal 1 (dot g e)); [exact Hc|].
+    unfold e. rewrite <- Lg, dot_basis by (rewrite Lg; exact Hk).
+    unfold scal; simpl; unfold mult; simpl. ring.
+Qed.
+End Gradient.
